@@ -177,11 +177,8 @@ Proof.
   { intros x Hru.
     destruct (read_bytes_sim d s c oo 1 G ltac:(lia) P1) as (s' & r & rb & R1 & R2 & D & Er & Nn & G' & RA).
     unfold read_u8 in *. rewrite R2 in Hru. rewrite R1. cbn [option_bind fst snd] in *.
-    assert (Hrb0 : br_err rb = 0).
-    { destruct (br_nil rb); [inv_some Hru|destruct (peekz (br_data rb) 0); [inv_some Hru|discriminate]];
-        cbn [cur rerr] in Hc1; rewrite E1 in Hc1; exact Hc1. }
-    rewrite (Nn Hrb0), D.
-    destruct (br_nil rb).
+    rewrite D.
+    destruct (len (br_data rb) <? 1).
     - inv_some Hru. eexists. split; [reflexivity|]. split; [|exact RA].
       apply sim_intro; cbn [rpos rerr]; auto. pose proof (len_nonneg (br_data rb)). lia.
     - destruct (peekz (br_data rb) 0) as [b|]; [|discriminate]. cbn [option_bind] in *. inv_some Hru.
@@ -219,11 +216,8 @@ Proof.
   - (* ReadByte *)
     destruct (read_bytes_sim d s c oo 1 G ltac:(lia) P1) as (s' & r & rb & R1 & R2 & D & Er & Nn & G' & RA).
     rewrite R2 in Hstep. rewrite R1. cbn [option_bind fst snd] in *.
-    assert (Hrb0 : br_err rb = 0).
-    { destruct (br_nil rb); [inv_some Hstep|destruct (peekz (br_data rb) 0); [inv_some Hstep|discriminate]];
-        cbn [cur rerr] in Hc1; rewrite E1 in Hc1; exact Hc1. }
-    rewrite (Nn Hrb0), D.
-    destruct (br_nil rb).
+    rewrite D.
+    destruct (len (br_data rb) <? 1).
     + inv_some Hstep. cbn [cur rerr]. eexists. split; [reflexivity|]. split; [|exact RA].
       apply sim_intro; cbn [rpos rerr]; auto. pose proof (len_nonneg (br_data rb)). lia.
     + destruct (peekz (br_data rb) 0) as [b|]; [|discriminate]. cbn [option_bind] in *. inv_some Hstep.
@@ -310,9 +304,6 @@ Proof.
   repeat split; auto.
 Qed.
 
-Lemma classic_is8 o : is8 o \/ ~ is8 o.
-Proof. destruct o; cbn [is8]; tauto. Qed.
-
 Lemma typed_width o : typed_read o -> 0 < op_width o.
 Proof. destruct o; cbn [typed_read op_width]; intros; try tauto; lia. Qed.
 
@@ -336,12 +327,13 @@ Proof.
   specialize (Nn Hin).
   assert (Hlen : len (br_data r) = op_width op).
   { rewrite D. rewrite len_slice_gen by lia. lia. }
-  rewrite Hlen in *.
+  rewrite Hlen in R, G'.
   replace (rpos c + op_width op <=? len d) with true in Er by (symmetry; apply Z.leb_le; lia).
   rewrite Er in R. rewrite if_same_z in R.
   exists s'. split; [|auto].
   destruct op; cbn [typed_read] in Ht; try tauto; cbn [op_width] in *;
     cbn [step read_value]; unfold read_fixed, read_u8; rewrite R; cbn [option_bind fst snd cur rerr];
+    rewrite ?Hlen; try change (1 <? 1) with false; cbv iota;
     rewrite ?Nn, ?D; try reflexivity;
     rewrite <- D; rewrite (peekz_getz (br_data r) 0) by lia; reflexivity.
 Qed.
@@ -353,9 +345,9 @@ Proof.
   unfold dec_u16, dec_u24, dec_u32, dec_u64. repeat split; intros H; zb; reflexivity.
 Qed.
 
-(* B: the read runs past the end; not one of the 8-bit reads *)
+(* B: the read runs past the end: zero value, io.EOF, no panic - on every backend, 8-bit reads included *)
 Lemma typed_read_past_end d s c o op :
-  good d s (rpos c) -> 0 <= rpos c -> typed_read op -> ~ is8 op -> len d < rpos c + op_width op ->
+  good d s (rpos c) -> 0 <= rpos c -> typed_read op -> len d < rpos c + op_width op ->
   let rest := slice d (rpos c) (rpos c + op_width op) in
   let e' := if rerr c =? 0 then E_EOF else rerr c in
   exists s' v,
@@ -364,39 +356,20 @@ Lemma typed_read_past_end d s c o op :
     zero_obs op rest e' v /\
     good d s' (rpos c + len rest) /\ random_access s' = random_access s.
 Proof.
-  intros G Hp Ht H8 Hout. cbn zeta. pose proof (typed_width op Ht) as Hw.
+  intros G Hp Ht Hout. cbn zeta. pose proof (typed_width op Ht) as Hw.
   destruct (read_bytes_good d s c o (op_width op) G Hw Hp) as (s' & r & R & D & Er & _ & _ & G' & RA).
   replace (rpos c + op_width op <=? len d) with false in Er by (symmetry; apply Z.leb_gt; lia).
   rewrite Er in R. rewrite D in *.
   assert (Hshort : len (slice d (rpos c) (rpos c + op_width op)) < op_width op).
   { rewrite len_slice_gen by lia. lia. }
+  assert (Hlt : (len (slice d (rpos c) (rpos c + op_width op)) <? op_width op) = true)
+    by (apply Z.ltb_lt; exact Hshort).
   destruct (dec_short_zero (rlittle c) (br_data r)) as (Z16 & Z24 & Z32 & Z64).
   rewrite D in *.
-  destruct op; cbn [typed_read is8] in Ht, H8; try tauto; cbn [op_width] in *;
-    cbn [step zero_obs]; unfold read_fixed; rewrite R; cbn [option_bind fst snd cur rlittle];
-    rewrite ?D, ?Z16, ?Z24, ?Z32, ?Z64 by assumption;
+  destruct op; cbn [typed_read] in Ht; try tauto; cbn [op_width] in *;
+    cbn [step zero_obs]; unfold read_fixed, read_u8; rewrite R; cbn [option_bind fst snd cur rlittle rerr];
+    rewrite ?D, ?Hlt, ?Z16, ?Z24, ?Z32, ?Z64 by assumption;
     eexists _, _; (split; [reflexivity|]); (split; [|auto]); eauto.
-Qed.
-
-(* C: an 8-bit read at or past the end of the in-memory backend: 0, io.EOF, no panic *)
-Lemma read8_past_end_bytes d c o op :
-  0 <= rpos c -> is8 op -> len d <= rpos c ->
-  let e' := if rerr c =? 0 then E_EOF else rerr c in
-  exists v,
-    step any_backend (mkSys (SBytes d) c o) op = Some (mkSys (SBytes d) (mkReader (rpos c) e' (rlittle c)) o, v) /\
-    zero_obs op [] e' v.
-Proof.
-  intros Hp H8 Hout. cbn zeta.
-  destruct (bytes_bytes_pos d true 1 (rpos c) ltac:(lia) Hp) as (rb & Eb & Db & Erb & Nb).
-  assert (R : read_bytes any_backend (mkSys (SBytes d) c o) 1 =
-              Some (mkSys (SBytes d) (mkReader (rpos c) (if rerr c =? 0 then E_EOF else rerr c) (rlittle c)) o, rb)).
-  { unfold read_bytes, set_cur. cbn [bst cur oth bbytes any_backend]. rewrite Eb. cbn [lift option_bind fst snd].
-    rewrite Db, Erb. rewrite slice_past by lia. change (len (@nil Z)) with 0.
-    replace (rpos c + 1 <=? len d) with false by (symmetry; apply Z.leb_gt; lia).
-    rewrite Z.add_0_r. reflexivity. }
-  replace (len d <=? rpos c) with true in Nb by (symmetry; apply Z.leb_le; lia).
-  destruct op; cbn [is8] in H8; try tauto; cbn [step zero_obs]; unfold read_u8; rewrite R;
-    cbn [option_bind fst snd]; rewrite Nb; eexists; split; reflexivity.
 Qed.
 
 (* ---- the writer ------------------------------------------------------------------------------------------ *)
@@ -572,7 +545,7 @@ Proof.
     destruct (read_bytes any_backend (mkSys s c oo) 1) as [[s1 r1]|] eqn:E; [|discriminate].
     cbn [option_bind fst snd] in Hr.
     assert (st' = s1).
-    { destruct (br_nil r1); [inversion Hr; reflexivity|].
+    { destruct (len (br_data r1) <? 1); [inversion Hr; reflexivity|].
       destruct (peekz (br_data r1) 0); [inversion Hr; reflexivity|discriminate]. }
     subst. eapply (read_bytes_inv d s c oo 1); eauto; lia. }
   destruct o; cbn [allowed] in Hal; cbn [step cur bst oth] in H.
@@ -595,7 +568,7 @@ Proof.
   - destruct (read_bytes any_backend (mkSys s c oo) 1) as [[s1 r1]|] eqn:E; [|discriminate].
     cbn [option_bind fst snd] in H.
     assert (st' = s1).
-    { destruct (br_nil r1); [inversion H; reflexivity|].
+    { destruct (len (br_data r1) <? 1); [inversion H; reflexivity|].
       destruct (peekz (br_data r1) 0); [inversion H; reflexivity|discriminate]. }
     subst. eapply (read_bytes_inv d s c oo 1); eauto; lia.
   - destruct (read_u8 any_backend (mkSys s c oo)) as [[s1 x]|] eqn:E; [|discriminate].
@@ -647,7 +620,7 @@ Proof. destruct op; cbn [typed_read allowed]; intros; try tauto; lia. Qed.
 
 (* ---- Err() stays nil until a read needs a byte at an index >= len d; then zero values and io.EOF --------- *)
 Theorem eof_exactly_past_end_proof d st op :
-  reachable d st -> typed_read op -> (is8 op -> in_memory (bst st)) ->
+  reachable d st -> typed_read op ->
   let p := rpos (cur st) in
   let w := op_width op in
   exists st' v,
@@ -660,7 +633,7 @@ Theorem eof_exactly_past_end_proof d st op :
        rpos (cur st') = Z.max p (len d) /\
        rerr (cur st') = (if rerr (cur st) =? 0 then E_EOF else rerr (cur st))).
 Proof.
-  intros Hr Ht H8. cbn zeta. destruct (reachable_inv d st Hr) as (G & P1 & P2).
+  intros Hr Ht. cbn zeta. destruct (reachable_inv d st Hr) as (G & P1 & P2).
   pose proof (typed_width op Ht) as Hw. pose proof (len_nonneg d) as Hd.
   assert (Hreach : forall st' v, step any_backend st op = Some (st', v) -> reachable d st').
   { intros st' v Hs. eapply R_step; eauto. apply typed_allowed. exact Ht. }
@@ -669,41 +642,11 @@ Proof.
   - destruct (typed_read_in_range d s c o op G P1 Ht Hin) as (s' & S1 & G' & RA).
     eexists _, _. split; [exact S1|]. split; [eapply Hreach; exact S1|].
     cbn [cur rpos rerr]. split; [auto|intros; lia].
-  - destruct (classic_is8 op) as [I8|N8].
-    + destruct (H8 I8) as (d' & ->). cbn [good] in G. subst d'.
-      assert (Hw1 : op_width op = 1) by (destruct op; cbn [is8] in I8; try tauto; reflexivity).
-      destruct (read8_past_end_bytes d c o op P1 I8 ltac:(lia)) as (v & S1 & Z0).
-      eexists _, _. split; [exact S1|]. split; [eapply Hreach; exact S1|].
-      cbn [cur rpos rerr]. split; [intros; lia|]. intros _.
-      rewrite slice_past by lia. split; [exact Z0|]. split; [lia|reflexivity].
-    + destruct (typed_read_past_end d s c o op G P1 Ht N8 Hout) as (s' & v & S1 & Z0 & G' & RA).
-      eexists _, _. split; [exact S1|]. split; [eapply Hreach; exact S1|].
-      cbn [cur rpos rerr]. split; [intros; lia|]. intros _.
-      split; [exact Z0|]. split; [|reflexivity].
-      rewrite len_slice_gen by lia. lia.
-Qed.
-
-(* the in-memory backend stays the in-memory backend *)
-Lemma read_bytes_in_memory d c o n st' r :
-  read_bytes any_backend (mkSys (SBytes d) c o) n = Some (st', r) -> bst st' = SBytes d.
-Proof.
-  unfold read_bytes, set_cur. cbn [bst cur oth bbytes any_backend]. unfold bytes_bytes.
-  repeat match goal with |- context [if ?b then _ else _] => destruct b end;
-    cbn [lift option_bind fst snd]; intros H; inversion H; reflexivity.
-Qed.
-
-Lemma step_typed_in_memory st op st' v :
-  typed_read op -> in_memory (bst st) -> step any_backend st op = Some (st', v) -> in_memory (bst st').
-Proof.
-  intros Ht (d & Hd) H. destruct st as [s c o]. cbn [bst] in Hd. subst s. exists d.
-  destruct op; cbn [typed_read] in Ht; try tauto; cbn [step] in H; unfold read_fixed, read_u8 in H;
-    match type of H with context [read_bytes any_backend ?st ?n] =>
-      destruct (read_bytes any_backend st n) as [[s1 r1]|] eqn:E; [|discriminate] end;
-    cbn [option_bind fst snd] in H; apply read_bytes_in_memory in E;
-    repeat match type of H with
-    | context [if ?b then _ else _] => destruct b
-    | context [peekz ?l ?i] => destruct (peekz l i); cbn [option_bind] in H
-    end; inversion H; subst; auto; discriminate.
+  - destruct (typed_read_past_end d s c o op G P1 Ht Hout) as (s' & v & S1 & Z0 & G' & RA).
+    eexists _, _. split; [exact S1|]. split; [eapply Hreach; exact S1|].
+    cbn [cur rpos rerr]. split; [intros; lia|]. intros _.
+    split; [exact Z0|]. split; [|reflexivity].
+    rewrite len_slice_gen by lia. lia.
 Qed.
 
 Lemma eof_err_nonzero e : (if e =? 0 then E_EOF else e) <> 0.
@@ -716,26 +659,21 @@ Proof. intros H. destruct (Z.eqb_spec e 0); [contradiction|reflexivity]. Qed.
    position where it is and Err() is io.EOF (or the earlier error) for good *)
 Theorem eof_sticky_proof d : forall ops st,
   reachable d st -> len d <= rpos (cur st) -> Forall typed_read ops ->
-  (in_memory (bst st) \/ Forall (fun o => ~ is8 o) ops) ->
   let e := if rerr (cur st) =? 0 then E_EOF else rerr (cur st) in
   exists st' outs,
     run any_backend st ops = Some (st', outs) /\ reachable d st' /\
     Forall2 (fun o v => zero_obs o [] e v) ops outs /\
     rpos (cur st') = rpos (cur st) /\ (ops <> [] -> rerr (cur st') = e).
 Proof.
-  induction ops as [|op rest IH]; intros st Hr Hp Ht Hk; cbn zeta.
+  induction ops as [|op rest IH]; intros st Hr Hp Ht; cbn zeta.
   - exists st, []. cbn [run]. repeat split; auto. congruence.
   - inversion Ht as [|? ? Ht1 Htr]; subst.
-    assert (H8 : is8 op -> in_memory (bst st)).
-    { intros I8. destruct Hk as [Hk|Hk]; [exact Hk|]. inversion Hk; subst. contradiction. }
-    destruct (eof_exactly_past_end_proof d st op Hr Ht1 H8) as (st1 & v & S1 & Hr1 & _ & Hout).
+    destruct (eof_exactly_past_end_proof d st op Hr Ht1) as (st1 & v & S1 & Hr1 & _ & Hout).
     pose proof (typed_width op Ht1) as Hw. pose proof (len_nonneg d) as Hd.
     destruct (reachable_inv d st Hr) as (_ & P1 & _).
     destruct (Hout ltac:(lia)) as (Z0 & Hpos & Herr).
     rewrite slice_past in Z0 by lia. rewrite Z.max_l in Hpos by lia.
-    assert (Hk1 : in_memory (bst st1) \/ Forall (fun o => ~ is8 o) rest).
-    { destruct Hk as [Hk|Hk]; [left; eapply step_typed_in_memory; eauto|right; inversion Hk; assumption]. }
-    destruct (IH st1 Hr1 ltac:(lia) Htr Hk1) as (st' & outs & R & Hr' & F2 & Hpos' & Herr').
+    destruct (IH st1 Hr1 ltac:(lia) Htr) as (st' & outs & R & Hr' & F2 & Hpos' & Herr').
     cbn zeta in *. rewrite Herr in F2, Herr'. rewrite eof_err_idem in F2, Herr' by apply eof_err_nonzero.
     exists st', (v :: outs). cbn [run]. rewrite S1. cbn [option_bind fst snd]. rewrite R.
     cbn [option_bind fst snd]. split; [reflexivity|]. split; [exact Hr'|].
@@ -745,7 +683,7 @@ Proof.
     + apply Herr'. discriminate.
 Qed.
 
-(* ---- the mmap backend is the in-memory backend, except for zero-length requests --------------------------- *)
+(* ---- the mmap backend is the in-memory backend (until it is closed) ------------------------------------------ *)
 Lemma bytes_bytes_total d bnil n off : exists r, bytes_bytes d bnil n off = Some (d, r).
 Proof.
   unfold bytes_bytes.
@@ -753,34 +691,33 @@ Proof.
 Qed.
 
 Lemma bbytes_mmap d sz bnil n off :
-  n <> 0 ->
   exists r, bbytes any_backend (SBytes d) bnil n off = Some (SBytes d, r) /\
             bbytes any_backend (SMmap (mkM (Some d) sz)) bnil n off = Some (SMmap (mkM (Some d) sz), r).
 Proof.
-  intros Hn. destruct (bytes_bytes_total d bnil n off) as (r & E). exists r.
-  cbn [bbytes any_backend]. rewrite (mmap_bytes_eq d sz bnil n off Hn), E. split; reflexivity.
+  destruct (bytes_bytes_total d bnil n off) as (r & E). exists r.
+  cbn [bbytes any_backend]. rewrite (mmap_bytes_eq d sz bnil n off), E. split; reflexivity.
 Qed.
 
 Definition as_mmap (d : list Z) (x : sys bstate * obs) : sys bstate * obs :=
   (mkSys (SMmap (mkM (Some d) (len d))) (cur (fst x)) (oth (fst x)), snd x).
 
 Lemma step_mmap d c o op :
-  nonzero_len op ->
+  no_close op ->
   step any_backend (mkSys (SMmap (mkM (Some d) (len d))) c o) op =
     option_map (as_mmap d) (step any_backend (mkSys (SBytes d) c o) op) /\
   (forall st' v, step any_backend (mkSys (SBytes d) c o) op = Some (st', v) -> bst st' = SBytes d).
 Proof.
   intros Hnz.
-  assert (RB : forall n, n <> 0 -> exists r,
+  assert (RB : forall n, exists r,
      read_bytes any_backend (mkSys (SBytes d) c o) n =
        Some (mkSys (SBytes d) (mkReader (rpos c + len (br_data r)) (if rerr c =? 0 then br_err r else rerr c) (rlittle c)) o, r) /\
      read_bytes any_backend (mkSys (SMmap (mkM (Some d) (len d))) c o) n =
        Some (mkSys (SMmap (mkM (Some d) (len d))) (mkReader (rpos c + len (br_data r)) (if rerr c =? 0 then br_err r else rerr c) (rlittle c)) o, r)).
-  { intros n Hn. destruct (bbytes_mmap d (len d) true n (rpos c) Hn) as (r & E1 & E2). exists r.
+  { intros n. destruct (bbytes_mmap d (len d) true n (rpos c)) as (r & E1 & E2). exists r.
     unfold read_bytes, set_cur. cbn [bst cur oth]. rewrite E1, E2. split; reflexivity. }
-  destruct op; cbn [nonzero_len] in Hnz; try tauto; cbn [step]; unfold read_fixed, read_u8;
+  destruct op; cbn [no_close] in Hnz; try tauto; cbn [step]; unfold read_fixed, read_u8;
     try (match goal with |- context [read_bytes any_backend _ ?n] =>
-           destruct (RB n ltac:(lia)) as (r & E1 & E2); rewrite E1, E2 end;
+           destruct (RB n) as (r & E1 & E2); rewrite E1, E2 end;
          cbn [option_bind fst snd option_map as_mmap cur oth];
          repeat match goal with |- context [if ?b then _ else _] => destruct b end;
          repeat match goal with |- context [peekz ?l ?i] => destruct (peekz l i) end;
@@ -788,10 +725,10 @@ Proof.
          (split; [reflexivity|]); intros st' v H; inversion H; reflexivity).
   - rewrite !seek_factor. cbn [blen any_backend msize option_map as_mmap fst snd cur oth].
     split; [reflexivity|]. intros st' v H; inversion H; reflexivity.
-  - destruct (bbytes_mmap d (len d) false n (rpos c) Hnz) as (r & E1 & E2). cbn [cur bst]. rewrite E1, E2.
+  - destruct (bbytes_mmap d (len d) false n (rpos c)) as (r & E1 & E2). cbn [cur bst]. rewrite E1, E2.
     cbn [option_bind fst snd option_map as_mmap cur oth set_cur]. unfold set_cur. cbn [oth cur bst].
     split; [reflexivity|]. intros st' v H; inversion H; reflexivity.
-  - destruct (bbytes_mmap d (len d) false n off Hnz) as (r & E1 & E2). cbn [cur bst]. rewrite E1, E2.
+  - destruct (bbytes_mmap d (len d) false n off) as (r & E1 & E2). cbn [cur bst]. rewrite E1, E2.
     cbn [option_bind fst snd option_map as_mmap cur oth set_cur]. unfold set_cur. cbn [oth cur bst].
     split; [reflexivity|]. intros st' v H; inversion H; reflexivity.
   - cbn [option_map as_mmap fst snd cur oth]. split; [reflexivity|]. intros st' v H; inversion H; reflexivity.
@@ -804,7 +741,7 @@ Proof.
 Qed.
 
 Lemma run_mmap d ops : forall c o,
-  Forall nonzero_len ops ->
+  Forall no_close ops ->
   run any_backend (mkSys (SMmap (mkM (Some d) (len d))) c o) ops =
   match run any_backend (mkSys (SBytes d) c o) ops with
   | Some (st', outs) => Some (mkSys (SMmap (mkM (Some d) (len d))) (cur st') (oth st'), outs)
@@ -821,7 +758,7 @@ Proof.
 Qed.
 
 Theorem mmap_bytes_identical_proof d ops :
-  Forall nonzero_len ops ->
+  Forall no_close ops ->
   run any_backend (new_sys (SMmap (mmap_open d))) ops =
   match run any_backend (new_sys (SBytes d)) ops with
   | Some (st', outs) => Some (mkSys (SMmap (mmap_open d)) (cur st') (oth st'), outs)
@@ -891,72 +828,73 @@ Proof.
   - unfold set_cur. cbn [cur oth]. auto.
 Qed.
 
-(* ---- mmap: the round trip, except for empty byte strings ---------------------------------------------------- *)
-Theorem write_read_roundtrip_mmap_proof little vs1 vs2 :
-  Forall valid_value vs1 -> Forall (fun v => value_size v <> 0) vs1 ->
-  exists st' outs,
-    run any_backend (new_sys (SMmap (mmap_open (write_all little (vs1 ++ vs2)))))
-        (OOrder little :: map read_op vs1 ++ [OPos; OLen; OErr]) =
-      Some (st', VNone :: outs ++ [VInt (values_size vs1); VInt (values_size vs2); VInt 0]) /\
-    Forall2 returns outs vs1.
+(* ---- the three repaired deviations, now positive ---------------------------------------------------------------- *)
+(* f2080b8: the 8-bit reads at or past the end return 0 with io.EOF on every backend *)
+Theorem read8_past_end_all_backends_proof d st op :
+  reachable d st -> (op = OU8 \/ op = OI8 \/ op = OReadByte) -> len d <= rpos (cur st) ->
+  let e := if rerr (cur st) =? 0 then E_EOF else rerr (cur st) in
+  exists st',
+    step any_backend st op = Some (st', match op with OReadByte => VIntErr 0 e | _ => VInt 0 end) /\
+    reachable d st' /\ rpos (cur st') = rpos (cur st) /\ rerr (cur st') = e.
 Proof.
-  intros Hv Hnz.
-  destruct (write_read_roundtrip_proof (SBytes (write_all little (vs1 ++ vs2))) little vs1 vs2
-              (H_bytes _) Hv) as (st' & outs & R & F2).
-  rewrite mmap_bytes_identical_proof, R.
-  - eexists _, outs. split; [reflexivity|exact F2].
-  - constructor; [exact I|]. apply Forall_app. split.
-    + clear -Hnz. induction Hnz as [|v vs H _ IH]; [constructor|]. cbn [map]. constructor; [|exact IH].
-      destruct v; cbn [read_op nonzero_len value_size] in *; auto.
-    + repeat constructor.
+  intros Hr Hop Hp. cbn zeta.
+  assert (Ht : typed_read op) by (destruct Hop as [->|[->| ->]]; exact I).
+  assert (Hw : op_width op = 1) by (destruct Hop as [->|[->| ->]]; reflexivity).
+  destruct (eof_exactly_past_end_proof d st op Hr Ht) as (st' & v & S1 & Hr' & _ & Hout).
+  cbn zeta in Hout. rewrite Hw in Hout. pose proof (len_nonneg d).
+  destruct (reachable_inv d st Hr) as (_ & P1 & _).
+  destruct (Hout ltac:(lia)) as (Z0 & Hpos & Herr).
+  exists st'. rewrite Z.max_l in Hpos by lia. rewrite <- Herr.
+  split; [|auto]. rewrite S1. f_equal. f_equal.
+  destruct Hop as [->|[->| ->]]; cbn [zero_obs] in Z0; exact Z0.
 Qed.
 
-(* ---- witnesses of the deviations ------------------------------------------------------------------------------ *)
-(* ReadUint8 / ReadInt8 / ReadByte at the end of the data panic on the stream backends (healthy sources!) *)
-Theorem read8_past_end_streams_refuted_proof :
-  healthy (SReader (mkR [7] [] false E_EOF 0 1)) [7] /\
-  healthy (SSeeker (mkK [7] [] false E_EOF 1 false true)) [7] /\
-  healthy (SReaderAt (mkA [7] [] false E_EOF 1)) [7] /\
-  run any_backend (new_sys (SReader (mkR [7] [] false E_EOF 0 1))) [OU8; OErr; OU8] = None /\
-  run any_backend (new_sys (SSeeker (mkK [7] [] false E_EOF 1 false true))) [OU8; OErr; OReadByte] = None /\
-  run any_backend (new_sys (SReaderAt (mkA [7] [] false E_EOF 1))) [OU8; OErr; OI8] = None /\
-  option_map snd (run any_backend (new_sys (SBytes [7])) [OU8; OErr; OU8; OErr]) =
+Theorem read8_past_end_streams_proof :
+  option_map snd (run any_backend (new_sys (SReader (mkR [7] [] false E_EOF 0 1))) [OU8; OErr; OU8; OErr]) =
+    Some [VInt 7; VInt 0; VInt 0; VInt E_EOF] /\
+  option_map snd (run any_backend (new_sys (SSeeker (mkK [7] [] false E_EOF 1 false true))) [OU8; OErr; OReadByte; OErr]) =
+    Some [VInt 7; VInt 0; VIntErr 0 E_EOF; VInt E_EOF] /\
+  option_map snd (run any_backend (new_sys (SReaderAt (mkA [7] [] false E_EOF 1))) [OU8; OErr; OI8; OErr]) =
     Some [VInt 7; VInt 0; VInt 0; VInt E_EOF].
-Proof.
-  split; [apply (H_reader [7] []); constructor|].
-  split; [apply (H_seeker [7] [] true); constructor|].
-  split; [apply (H_readerat [7])|].
-  repeat split; vm_compute; reflexivity.
-Qed.
-
-(* a source that delivers io.EOF together with the last bytes: Err() = io.EOF after an exact-fit read *)
-Theorem eof_with_last_bytes_refuted_proof :
-  option_map snd (run any_backend (new_sys (SReader (mkR [1; 2] [] true E_EOF 0 2))) [OU16; OErr; OPos; OLen]) =
-    Some [VInt 258; VInt E_EOF; VInt 2; VInt 0] /\
-  option_map snd (run any_backend (new_sys (SSeeker (mkK [1; 2] [] true E_EOF 2 false false))) [OU16; OErr]) =
-    Some [VInt 258; VInt E_EOF] /\
-  option_map snd (run any_backend (new_sys (SReaderAt (mkA [1; 2] [] true E_EOF 2))) [OU16; OErr]) =
-    Some [VInt 258; VInt E_EOF] /\
-  option_map snd (run any_backend (new_sys (SBytes [1; 2])) [OU16; OErr]) = Some [VInt 258; VInt 0].
 Proof. repeat split; vm_compute; reflexivity. Qed.
 
-(* a source that once returns (0, nil): the read fails with "could not read all bytes" inside the data *)
+(* 4fcdee5: a source that delivers io.EOF together with the last bytes is a healthy source: every theorem
+   about healthy sources covers it; the former witness now leaves Err() = nil *)
+Theorem eof_with_last_bytes_proof :
+  (forall d sched closer, positive_sched sched ->
+     healthy (SReader (mkR d sched true E_EOF 0 (len d))) d /\
+     healthy (SSeeker (mkK d sched true E_EOF (len d) false closer)) d /\
+     healthy (SReaderAt (mkA d [] true E_EOF (len d))) d) /\
+  option_map snd (run any_backend (new_sys (SReader (mkR [1; 2] [] true E_EOF 0 2))) [OU16; OErr; OPos; OLen; OU8; OErr]) =
+    Some [VInt 258; VInt 0; VInt 2; VInt 0; VInt 0; VInt E_EOF] /\
+  option_map snd (run any_backend (new_sys (SSeeker (mkK [1; 2] [] true E_EOF 2 false false))) [OU16; OErr]) =
+    Some [VInt 258; VInt 0] /\
+  option_map snd (run any_backend (new_sys (SReaderAt (mkA [1; 2] [] true E_EOF 2))) [OU16; OErr]) =
+    Some [VInt 258; VInt 0].
+Proof.
+  split.
+  - intros d sched closer Hs. split; [apply H_reader; exact Hs|]. split; [apply H_seeker; exact Hs|apply H_readerat].
+  - repeat split; vm_compute; reflexivity.
+Qed.
+
+(* c003402: a memory map is a healthy source, empty byte strings included; the former witness leaves Err() = nil *)
+Theorem mmap_empty_read_at_end_proof :
+  (forall d, healthy (SMmap (mmap_open d)) d) /\
+  option_map snd (run any_backend (new_sys (SMmap (mmap_open [5]))) [OU8; OReadBytes 0; OErr]) =
+    Some [VInt 5; VData true []; VInt 0] /\
+  write_all false [VU8 5; VBytes []] = [5].
+Proof. split; [exact H_mmap|]. split; vm_compute; reflexivity. Qed.
+
+(* still open: a source that once returns (0, nil) makes the read fail inside the data with
+   "could not read all bytes" (no panic any more) *)
 Theorem zero_length_read_refuted_proof :
   option_map snd (run any_backend (new_sys (SReader (mkR [1; 2; 3] [1; 0] false E_EOF 0 3))) [OU16; OErr; OPos]) =
     Some [VInt 0; VInt E_SHORT; VInt 1] /\
-  run any_backend (new_sys (SSeeker (mkK [1; 2; 3] [0] false E_EOF 3 false false))) [OU8] = None.
+  option_map snd (run any_backend (new_sys (SSeeker (mkK [1; 2; 3] [0] false E_EOF 3 false false))) [OU8; OErr; OPos]) =
+    Some [VInt 0; VInt E_SHORT; VInt 0].
 Proof. repeat split; vm_compute; reflexivity. Qed.
 
-(* mmap: ReadBytes(0) at the end of the data sets Err() = io.EOF; the in-memory backend does not *)
-Theorem mmap_empty_read_at_end_refuted_proof :
-  option_map snd (run any_backend (new_sys (SMmap (mmap_open [5]))) [OU8; OReadBytes 0; OErr]) =
-    Some [VInt 5; VData true []; VInt E_EOF] /\
-  option_map snd (run any_backend (new_sys (SBytes [5])) [OU8; OReadBytes 0; OErr]) =
-    Some [VInt 5; VData true []; VInt 0] /\
-  write_all false [VU8 5; VBytes []] = [5].
-Proof. repeat split; vm_compute; reflexivity. Qed.
-
-(* ---- independence past the end: everything except the 8-bit reads -------------------------------------------- *)
+(* ---- independence past the end ------------------------------------------------------------------------------- *)
 Definition sim2 (d : list Z) (st : sys bstate) (sb : sys (list Z)) : Prop :=
   bst sb = d /\ cur st = cur sb /\ oth st = oth sb /\
   good d (bst st) (rpos (cur st)) /\ 0 <= rpos (cur st) /\ 0 <= rpos (oth st).
@@ -966,12 +904,12 @@ Lemma sim2_intro d s c o :
 Proof. intros. unfold sim2. cbn [bst cur oth]. repeat split; auto. Qed.
 
 Lemma step_sim2 d st sb o :
-  sim2 d st sb -> allowed (random_access (bst st)) o -> ~ is8 o ->
+  sim2 d st sb -> allowed (random_access (bst st)) o ->
   exists st' sb' v vb,
     step any_backend st o = Some (st', v) /\ step bytes_backend sb o = Some (sb', vb) /\
     obs_eqv v vb /\ sim2 d st' sb' /\ random_access (bst st') = random_access (bst st).
 Proof.
-  intros Hsim Hal H8.
+  intros Hsim Hal.
   destruct st as [s c oo], sb as [db cb ob]. unfold sim2 in Hsim. cbn [bst cur oth] in Hsim.
   destruct Hsim as (-> & <- & <- & G & P1 & P2). cbn [bst] in Hal.
   pose proof (good_len d s _ G) as HL.
@@ -994,7 +932,20 @@ Proof.
                       step bytes_backend (mkSys d c oo) o = Some (sb', vb) /\
                       obs_eqv v vb /\ sim2 d st' sb' /\ random_access (bst st') = random_access s).
   { intros st' sb' v A B C D. exists st', sb', v, v. split; [exact A|]. split; [exact B|]. split; [left; reflexivity|]. auto. }
-  destruct o; cbn [allowed is8] in Hal, H8; try tauto.
+  assert (Hu8 : exists st' sb' x,
+       read_u8 any_backend (mkSys s c oo) = Some (st', x) /\
+       read_u8 bytes_backend (mkSys d c oo) = Some (sb', x) /\
+       sim2 d st' sb' /\ random_access (bst st') = random_access s).
+  { destruct (read_bytes_sim d s c oo 1 G ltac:(lia) P1) as (s' & r & rb & R1 & R2 & D & Er & Nn & G' & RA).
+    unfold read_u8. rewrite R1, R2. cbn [option_bind fst snd]. rewrite D.
+    assert (Hs2 : sim2 d (mkSys s' (mkReader (rpos c + len (br_data rb)) (if rerr c =? 0 then br_err rb else rerr c) (rlittle c)) oo)
+                         (mkSys d (mkReader (rpos c + len (br_data rb)) (if rerr c =? 0 then br_err rb else rerr c) (rlittle c)) oo)).
+    { apply sim2_intro; cbn [rpos]; auto. pose proof (len_nonneg (br_data rb)). lia. }
+    destruct (Z.ltb_spec (len (br_data rb)) 1) as [El|El].
+    - eexists _, _, _. split; [reflexivity|]. split; [reflexivity|]. split; [exact Hs2|exact RA].
+    - rewrite (peekz_getz (br_data rb) 0) by lia. cbn [option_bind].
+      eexists _, _, _. split; [reflexivity|]. split; [reflexivity|]. split; [exact Hs2|exact RA]. }
+  destruct o; cbn [allowed] in Hal; try tauto.
   - (* Seek *)
     eapply Hsame; cbn [step]; [rewrite seek_factor, HL; reflexivity|rewrite seek_factor, HLb; reflexivity| |reflexivity].
     destruct (seek_pure_props (len d) c off whence) as (A1 & A2 & A3).
@@ -1017,10 +968,34 @@ Proof.
     eexists _, _, _, _. split; [reflexivity|]. split; [reflexivity|]. split.
     { right. eexists _, _, _. split; reflexivity. }
     split; [|exact RA]. apply sim2_intro; cbn [rpos]; auto. pose proof (len_nonneg (br_data rb)). lia.
+  - (* ReadByte *)
+    destruct (read_bytes_sim d s c oo 1 G ltac:(lia) P1) as (s' & r & rb & R1 & R2 & D & Er & Nn & G' & RA).
+    assert (Hs2 : sim2 d (mkSys s' (mkReader (rpos c + len (br_data rb)) (if rerr c =? 0 then br_err rb else rerr c) (rlittle c)) oo)
+                         (mkSys d (mkReader (rpos c + len (br_data rb)) (if rerr c =? 0 then br_err rb else rerr c) (rlittle c)) oo)).
+    { apply sim2_intro; cbn [rpos]; auto. pose proof (len_nonneg (br_data rb)). lia. }
+    destruct (Z.ltb_spec (len (br_data rb)) 1) as [El|El].
+    + eapply Hsame; cbn [step]; [rewrite R1; cbn [option_bind fst snd]; rewrite D;
+        replace (len (br_data rb) <? 1) with true by (symmetry; apply Z.ltb_lt; lia); reflexivity
+      |rewrite R2; cbn [option_bind fst snd];
+        replace (len (br_data rb) <? 1) with true by (symmetry; apply Z.ltb_lt; lia); reflexivity
+      |exact Hs2|exact RA].
+    + eapply Hsame; cbn [step]; [rewrite R1; cbn [option_bind fst snd]; rewrite D;
+        replace (len (br_data rb) <? 1) with false by (symmetry; apply Z.ltb_ge; lia);
+        rewrite (peekz_getz (br_data rb) 0) by lia; reflexivity
+      |rewrite R2; cbn [option_bind fst snd];
+        replace (len (br_data rb) <? 1) with false by (symmetry; apply Z.ltb_ge; lia);
+        rewrite (peekz_getz (br_data rb) 0) by lia; reflexivity
+      |exact Hs2|exact RA].
+  - (* U8 *)
+    destruct Hu8 as (st' & sb' & x & A & B & C & D).
+    eapply Hsame; cbn [step]; [rewrite A; reflexivity|rewrite B; reflexivity|exact C|exact D].
   - destruct (Hfix 2 dec_u16 ltac:(lia)) as (st' & sb' & v & A & B & C & D). eapply Hsame; eauto.
   - destruct (Hfix 3 dec_u24 ltac:(lia)) as (st' & sb' & v & A & B & C & D). eapply Hsame; eauto.
   - destruct (Hfix 4 dec_u32 ltac:(lia)) as (st' & sb' & v & A & B & C & D). eapply Hsame; eauto.
   - destruct (Hfix 8 dec_u64 ltac:(lia)) as (st' & sb' & v & A & B & C & D). eapply Hsame; eauto.
+  - (* I8 *)
+    destruct Hu8 as (st' & sb' & x & A & B & C & D).
+    eapply Hsame; cbn [step]; [rewrite A; reflexivity|rewrite B; reflexivity|exact C|exact D].
   - destruct (Hfix 2 (fun l d0 => to_signed 16 (dec_u16 l d0)) ltac:(lia)) as (st' & sb' & v & A & B & C & D). eapply Hsame; eauto.
   - destruct (Hfix 3 (fun l d0 => sext24 (dec_u24 l d0)) ltac:(lia)) as (st' & sb' & v & A & B & C & D). eapply Hsame; eauto.
   - destruct (Hfix 4 (fun l d0 => to_signed 32 (dec_u32 l d0)) ltac:(lia)) as (st' & sb' & v & A & B & C & D). eapply Hsame; eauto.
@@ -1040,7 +1015,7 @@ Proof.
 Qed.
 
 Theorem backend_independence_past_end_proof s d ops :
-  healthy s d -> Forall (allowed (random_access s)) ops -> Forall (fun o => ~ is8 o) ops ->
+  healthy s d -> Forall (allowed (random_access s)) ops ->
   exists st' sb' outs outsb,
     run any_backend (new_sys s) ops = Some (st', outs) /\
     run bytes_backend (new_sys d) ops = Some (sb', outsb) /\
@@ -1048,20 +1023,19 @@ Theorem backend_independence_past_end_proof s d ops :
 Proof.
   intros H.
   assert (Hgen : forall ops st sb, sim2 d st sb -> Forall (allowed (random_access (bst st))) ops ->
-            Forall (fun o => ~ is8 o) ops ->
             exists st' sb' outs outsb,
               run any_backend st ops = Some (st', outs) /\ run bytes_backend sb ops = Some (sb', outsb) /\
               Forall2 obs_eqv outs outsb /\ sim2 d st' sb').
-  { clear ops. induction ops as [|o rest IH]; intros st sb Hsim Hal H8.
+  { clear ops. induction ops as [|o rest IH]; intros st sb Hsim Hal.
     - exists st, sb, [], []. cbn [run]. split; [reflexivity|]. split; [reflexivity|]. split; [constructor|exact Hsim].
-    - inversion Hal as [|? ? Ho Hrest]; subst. inversion H8 as [|? ? H8o H8r]; subst.
-      destruct (step_sim2 d st sb o Hsim Ho H8o) as (st1 & sb1 & v & vb & S1 & S2 & E & Hsim1 & RA).
+    - inversion Hal as [|? ? Ho Hrest]; subst.
+      destruct (step_sim2 d st sb o Hsim Ho) as (st1 & sb1 & v & vb & S1 & S2 & E & Hsim1 & RA).
       rewrite <- RA in Hrest.
-      destruct (IH st1 sb1 Hsim1 Hrest H8r) as (st' & sb' & outs & outsb & R1 & R2 & F2 & S').
+      destruct (IH st1 sb1 Hsim1 Hrest) as (st' & sb' & outs & outsb & R1 & R2 & F2 & S').
       exists st', sb', (v :: outs), (vb :: outsb). cbn [run]. rewrite S1, S2. cbn [option_bind fst snd].
       rewrite R1, R2. cbn [option_bind fst snd]. split; [reflexivity|]. split; [reflexivity|].
       split; [constructor; assumption|exact S']. }
-  intros Hal H8.
+  intros Hal.
   destruct (Hgen ops (new_sys s) (new_sys d)) as (st' & sb' & outs & outsb & R1 & R2 & F2 & S'); auto.
   { unfold sim2, new_sys. cbn [bst cur oth rpos]. repeat split; auto; try lia. apply healthy_good. exact H. }
   exists st', sb', outs, outsb. destruct S' as (_ & A & B & _). auto.
@@ -1071,30 +1045,33 @@ Qed.
 Theorem constructors_healthy_proof d sched :
   (forall ewl failing, construct CBytes d sched ewl failing = Some (SBytes d)) /\
   (forall n ewl failing, construct (CHasBytes n) d sched ewl failing = Some (SBytes d)) /\
+  (forall ewl failing, exists s, construct CMmap d sched ewl failing = Some s /\ healthy s d) /\
   (forall ewl failing, exists s, construct (CFile (len d)) d sched ewl failing = Some s /\ healthy s d) /\
   (forall n ewl, n < 0 -> construct (CPlain n) d sched ewl false = Some (SBytes d)) /\
   (forall n ewl, n < 0 -> construct (CReaderAt n) d sched ewl false = Some (SBytes d)) /\
-  (positive_sched sched -> exists s, construct (CPlain (len d)) d sched false false = Some s /\ healthy s d) /\
-  (positive_sched sched -> forall n, n = len d \/ n < 0 ->
-     exists s, construct (CSeeker n) d sched false false = Some s /\ healthy s d) /\
-  (exists s, construct (CReaderAt (len d)) d [] false false = Some s /\ healthy s d) /\
+  (positive_sched sched -> forall ewl,
+     exists s, construct (CPlain (len d)) d sched ewl false = Some s /\ healthy s d) /\
+  (positive_sched sched -> forall n ewl, n = len d \/ n < 0 ->
+     exists s, construct (CSeeker n) d sched ewl false = Some s /\ healthy s d) /\
+  (forall ewl, exists s, construct (CReaderAt (len d)) d [] ewl false = Some s /\ healthy s d) /\
   healthy (SBytes d) d.
 Proof.
   pose proof (len_nonneg d) as Hd.
   split; [reflexivity|]. split; [reflexivity|].
-  split. { intros. eexists. split; [reflexivity|]. apply (H_seeker d [] true). constructor. }
+  split. { intros. eexists. split; [reflexivity|]. apply H_mmap. }
+  split. { intros. eexists. split; [reflexivity|]. apply (H_seeker d [] false true). constructor. }
   split. { intros n ewl Hn. cbn [construct]. replace (n <? 0) with true by (symmetry; apply Z.ltb_lt; lia). reflexivity. }
   split. { intros n ewl Hn. cbn [construct]. replace (0 <? n) with false by (symmetry; apply Z.ltb_ge; lia).
            replace (n <? 0) with true by (symmetry; apply Z.ltb_lt; lia). reflexivity. }
-  split. { intros Hs. cbn [construct]. replace (len d <? 0) with false by (symmetry; apply Z.ltb_ge; lia).
+  split. { intros Hs ewl. cbn [construct]. replace (len d <? 0) with false by (symmetry; apply Z.ltb_ge; lia).
            eexists. split; [reflexivity|]. apply H_reader. exact Hs. }
-  split. { intros Hs n [->|Hn]; cbn [construct].
+  split. { intros Hs n ewl [->|Hn]; cbn [construct].
            - replace (len d <? 0) with false by (symmetry; apply Z.ltb_ge; lia).
              eexists. split; [reflexivity|]. apply H_seeker. exact Hs.
            - replace (n <? 0) with true by (symmetry; apply Z.ltb_lt; lia).
              eexists. split; [reflexivity|]. apply H_seeker. exact Hs. }
   split; [|apply H_bytes].
-  cbn [construct]. destruct (Z.ltb_spec 0 (len d)) as [Hpos|Hz].
+  intros ewl. cbn [construct]. destruct (Z.ltb_spec 0 (len d)) as [Hpos|Hz].
   - eexists. split; [reflexivity|]. apply H_readerat.
   - replace (len d <? 0) with false by (symmetry; apply Z.ltb_ge; lia).
     eexists. split; [reflexivity|]. cbn [fe_of]. apply H_reader. constructor.
@@ -1103,23 +1080,14 @@ Qed.
 (* ---- the in-memory and mmap backends never panic, whatever the operations and arguments ----------------------- *)
 Lemma mem_bbytes s bnil n off :
   mem_state s ->
-  exists s' r, bbytes any_backend s bnil n off = Some (s', r) /\ mem_state s' /\
-               (br_nil r = false -> 0 < n -> exists c, peekz (br_data r) 0 = Some c).
+  exists s' r, bbytes any_backend s bnil n off = Some (s', r) /\ mem_state s'.
 Proof.
   intros Hm. destruct s as [d|m| | |]; cbn [mem_state] in Hm; try tauto; cbn [bbytes any_backend].
-  - unfold bytes_bytes.
-    destruct ((off <? 0) || (n <? 0)) eqn:E1; [eexists _, _; split; [reflexivity|]; split; [exact I|discriminate]|].
-    destruct (n =? 0) eqn:E2; [eexists _, _; split; [reflexivity|]; split; [exact I|discriminate]|].
-    destruct (len d <=? off) eqn:E3; [eexists _, _; split; [reflexivity|]; split; [exact I|discriminate]|].
-    eexists _, _. split; [reflexivity|]. split; [exact I|]. cbn [br_nil br_data]. intros _ Hn.
-    b2p. apply peekz_in_range. rewrite len_slice_gen by (destruct (len d - off <? n); lia).
-    destruct (Z.ltb_spec (len d - off) n); lia.
-  - unfold mmap_bytes. destruct (mdata m) as [d|]; [|eexists _, _; split; [reflexivity|]; split; [exact I|discriminate]].
-    destruct ((off <? 0) || (n <? 0)) eqn:E1; [eexists _, _; split; [reflexivity|]; split; [exact I|discriminate]|].
-    destruct (len d <=? off) eqn:E3; [eexists _, _; split; [reflexivity|]; split; [exact I|discriminate]|].
-    eexists _, _. split; [reflexivity|]. split; [exact I|]. cbn [br_nil br_data]. intros _ Hn.
-    b2p. apply peekz_in_range. rewrite len_slice_gen by (destruct (len d - off <? n); lia).
-    destruct (Z.ltb_spec (len d - off) n); lia.
+  - destruct (bytes_bytes_total d bnil n off) as (r & E). rewrite E. cbn [lift].
+    eexists _, _. split; [reflexivity|exact I].
+  - unfold mmap_bytes. destruct (mdata m) as [d|]; [|eexists _, _; split; [reflexivity|exact I]].
+    repeat match goal with |- context [if ?b then _ else _] => destruct b end;
+      cbn [lift]; eexists _, _; (split; [reflexivity|exact I]).
 Qed.
 
 Lemma mem_step st o :
@@ -1128,19 +1096,20 @@ Proof.
   intros Hm. destruct st as [s c oo]. cbn [bst] in Hm.
   assert (RB : forall n, exists s' r, read_bytes any_backend (mkSys s c oo) n =
                 Some (mkSys s' (mkReader (rpos c + len (br_data r)) (if rerr c =? 0 then br_err r else rerr c) (rlittle c)) oo, r)
-                /\ mem_state s' /\ (br_nil r = false -> 0 < n -> exists b, peekz (br_data r) 0 = Some b)).
-  { intros n. destruct (mem_bbytes s true n (rpos c) Hm) as (s' & r & E & M & P).
+                /\ mem_state s').
+  { intros n. destruct (mem_bbytes s true n (rpos c) Hm) as (s' & r & E & M).
     exists s', r. unfold read_bytes, set_cur. cbn [bst cur oth]. rewrite E. auto. }
   destruct o; cbn [step]; unfold read_fixed, read_u8;
     try (match goal with |- context [read_bytes any_backend _ ?n] =>
-           destruct (RB n) as (s' & r & E & M & P); rewrite E end;
+           destruct (RB n) as (s' & r & E & M); rewrite E end;
          cbn [option_bind fst snd];
-         try (destruct (br_nil r) eqn:En; [|destruct (P eq_refl ltac:(lia)) as (b & Hb); rewrite Hb; cbn [option_bind]]);
+         try (destruct (Z.ltb_spec (len (br_data r)) 1) as [El|El];
+              [|rewrite (peekz_getz (br_data r) 0) by lia; cbn [option_bind]]);
          eexists _, _; (split; [reflexivity|exact M])).
   - rewrite seek_factor. eexists _, _. split; [reflexivity|exact Hm].
-  - destruct (mem_bbytes s false n (rpos c) Hm) as (s' & r & E & M & P). cbn [cur bst]. rewrite E.
+  - destruct (mem_bbytes s false n (rpos c) Hm) as (s' & r & E & M). cbn [cur bst]. rewrite E.
     eexists _, _. split; [reflexivity|exact M].
-  - destruct (mem_bbytes s false n off Hm) as (s' & r & E & M & P). cbn [cur bst]. rewrite E.
+  - destruct (mem_bbytes s false n off Hm) as (s' & r & E & M). cbn [cur bst]. rewrite E.
     eexists _, _. split; [reflexivity|exact M].
   - eexists _, _. split; [reflexivity|exact Hm].
   - eexists _, _. split; [reflexivity|exact Hm].
@@ -1172,6 +1141,7 @@ Proof.
   assert (Hr : rd_err r <> E_FUEL).
   { unfold r, src_read. destruct rem; cbn [rd_err]; [exact Hfe|].
     destruct ((len (skipz _ _) =? 0) && ewl); [exact Hfe|discriminate]. }
+  destruct ((rd_err r =? E_EOF) && (need - len (rd_out r) =? 0)); [cbn [rd_err]; discriminate|].
   destruct (negb (rd_err r =? 0)); [cbn [rd_err]; exact Hr|].
   destruct (Z.eqb_spec (len (rd_out r)) 0) as [Hz|Hz]; [cbn [rd_err]; discriminate|].
   apply IH; [exact Hfe|]. pose proof (len_nonneg (rd_out r)). lia.
@@ -1209,40 +1179,38 @@ Example seek_example :
   = (mkSys [1; 2; 3; 4; 5; 6; 7; 8; 9; 10] (mkReader 7 0 false) (mkReader 0 0 false), VIntErr 7 0).
 Proof. reflexivity. Qed.
 
-(* a reachable state of a stream backend that stands one byte before the end: OU16 runs past the end there *)
+(* a reachable state of a stream backend (io.EOF arrives with the last bytes) one byte before the end *)
 Example eof_hypotheses_met :
-  exists st, reachable [1; 2; 3] st /\ rpos (cur st) = 2 /\ typed_read OU16 /\ ~ is8 OU16 /\
+  exists st, reachable [1; 2; 3] st /\ rpos (cur st) = 2 /\ typed_read OU16 /\ typed_read OU8 /\
              len [1; 2; 3] < rpos (cur st) + op_width OU16 /\
              option_map snd (step any_backend st OU16) = Some (VInt 0) /\
-             option_map (fun x => rerr (cur (fst x))) (step any_backend st OU16) = Some E_EOF.
+             option_map (fun x => rerr (cur (fst x))) (step any_backend st OU16) = Some E_EOF /\
+             option_map snd (run any_backend st [OU8; OErr; OU8; OErr]) = Some [VInt 3; VInt 0; VInt 0; VInt E_EOF].
 Proof.
   eexists. split.
-  - eapply (R_step [1; 2; 3] (new_sys (SReader (mkR [1; 2; 3] [1] false E_EOF 0 3))) OU16).
-    + apply R_init. apply (H_reader [1; 2; 3] [1]). repeat constructor.
+  - eapply (R_step [1; 2; 3] (new_sys (SReader (mkR [1; 2; 3] [1] true E_EOF 0 3))) OU16).
+    + apply R_init. apply (H_reader [1; 2; 3] [1] true). repeat constructor.
     + exact I.
     + vm_compute. reflexivity.
   - vm_compute. repeat split; auto; discriminate.
 Qed.
 
 Example sticky_hypotheses_met :
-  exists st, reachable [9] st /\ len [9] <= rpos (cur st) /\ in_memory (bst st) /\
+  exists st, reachable [9] st /\ len [9] <= rpos (cur st) /\
              option_map snd (run any_backend st [OU8; OU32; OReadByte; OReadBytes 2]) =
-               Some [VInt 0; VInt 0; VIntErr 0 E_EOF; VData true []].
+               Some [VInt 0; VInt 0; VIntErr 0 E_EOF; VData false []].
 Proof.
   eexists. split.
-  - eapply (R_step [9] (new_sys (SBytes [9])) OI8).
-    + apply R_init. apply H_bytes.
+  - eapply (R_step [9] (new_sys (SSeeker (mkK [9] [] false E_EOF 1 false true))) OI8).
+    + apply R_init. apply (H_seeker [9] [] false true). constructor.
     + exact I.
     + vm_compute. reflexivity.
-  - split; [vm_compute; discriminate|]. split; [eexists; reflexivity|vm_compute; reflexivity].
+  - split; [vm_compute; discriminate|vm_compute; reflexivity].
 Qed.
 
-Example mmap_roundtrip_hypotheses_met :
-  Forall valid_value [VU24 70000; VBytes [1]] /\ Forall (fun v => value_size v <> 0) [VU24 70000; VBytes [1]].
-Proof. split; repeat constructor; cbn; try lia; discriminate. Qed.
-
 Example mmap_identical_example :
-  Forall nonzero_len [OU16; OSeek 0 0; ORead 9; OU8; OU8] /\
-  option_map snd (run any_backend (new_sys (SMmap (mmap_open [1; 2; 3]))) [OU16; OSeek 0 0; ORead 9; OU8; OU8]) =
-    Some [VInt 258; VIntErr 0 0; VRead 3 E_EOF [1; 2; 3]; VInt 0; VInt 0].
-Proof. split; [repeat constructor; cbn; lia|vm_compute; reflexivity]. Qed.
+  Forall no_close [OU16; OSeek 0 0; ORead 9; OU8; OReadBytes 0; OReadBytes (-1); OU8] /\
+  option_map snd (run any_backend (new_sys (SMmap (mmap_open [1; 2; 3])))
+                    [OU16; OSeek 0 0; ORead 9; OU8; OReadBytes 0; OReadBytes (-1); OU8]) =
+    Some [VInt 258; VIntErr 0 0; VRead 3 E_EOF [1; 2; 3]; VInt 0; VData true []; VData true []; VInt 0].
+Proof. split; [repeat constructor|vm_compute; reflexivity]. Qed.
